@@ -57,8 +57,9 @@ def artifact_package(path):
 
 
 class Replay:
-    def __init__(self, hist, work):
+    def __init__(self, hist, work, origin="simulate"):
         self.hist = hist
+        self.origin = origin
         self.work = work
         self.arch = os.path.join(work, "archive")
         os.makedirs(self.arch)
@@ -136,6 +137,8 @@ class Replay:
             with open(os.path.join(self.ctl[w], "hostfp"), "w") as f:
                 f.write("fingerprint-%s\n" % proj["fp"])
             before = self.list_artifacts()
+            fresh_root = not os.path.isdir(os.path.join(self.ws[w], "dev", "dist", "app"))
+            new_terms = set()
             snap = {p: hashlib.sha1(open(os.path.join(self.arch, p), "rb").read()).hexdigest() for p in before}
             argv = ["dev", "app", "--download", mode] + (["--upload"] if a["upload"] else [])
             r = bobrun.run_bob(self.ws[w], argv, ctl=self.ctl[w])
@@ -154,14 +157,16 @@ class Replay:
                 pkg = artifact_package(os.path.join(self.arch, p))
                 term = self.model_bid(proj, pkg or "?")
                 self.bids[p] = (pkg, term)
+                new_terms.add(term)
             if nxt is not None and nxt["a"] == "DownloadFailed":
                 i += 1
-                if r.rc == 0:
+                if r.rc == 0 and self.origin == "simulate":
                     self.drift.append("model: forced download fails, real run succeeded (%s)" % mode)
                 continue
             if r.rc != 0:
-                if mode.startswith("forced"):
-                    self.drift.append("forced download failed in the real run only: %s" % r.out[-300:])
+                if mode.startswith("forced") and "ownload" in r.out[-600:]:
+                    if self.origin == "simulate":
+                        self.drift.append("forced download failed in the real run only: %s" % r.out[-300:])
                     continue
                 self.viol("invocation-failed", rc=r.rc, out=r.out[-2500:], mode=mode)
                 return self
@@ -175,14 +180,17 @@ class Replay:
                 return self
             if nxt is not None and nxt["a"] == "End":
                 i += 1
-                if (built, dl) != (nxt["built"], nxt["dl"]):
+                # the End record of a counterexample history carries the numbers of the WEAKENED model
+                if self.origin == "simulate" and (built, dl) != (nxt["built"], nxt["dl"]):
                     self.drift.append("model built/downloaded (%d,%d), real (%s,%s) in %s" % (nxt["built"], nxt["dl"], built, dl, mode))
-                # P FullReuse: the model expects zero builds exactly when a matching artifact was in the archive
-                if nxt["built"] == 0 and nxt["dl"] > 0 and built:
+            # P FullReuse, judged on the true structural build-ids: a root whose workspace holds no result and
+            # whose exact build-id was uploaded before must be taken from the archive without building anything
+            have = {term for (pkg, term) in self.bids.values() if pkg == "app"} - new_terms
+            if fresh_root and mode in ("yes", "forced", "forced-fallback") and self.model_bid(proj, "app") in have:
+                self.nontrivial.add("reuse-across-workspaces")
+                if built:
                     self.viol("matching-artifact-not-reused", mode=mode, proj=proj, built=built, downloaded=dl)
                     return self
-                if nxt["dl"] > 0:
-                    self.nontrivial.add("reuse-across-workspaces")
         # bucket test: real build-ids partition like the structural ones
         by_term = {}
         for name, (pkg, term) in self.bids.items():
@@ -197,7 +205,7 @@ def replay_task(arg):
     i, hist, origin = arg
     work = common.scratch("vf-c07-")
     try:
-        r = Replay(hist, work).run()
+        r = Replay(hist, work, origin).run()
     finally:
         shutil.rmtree(work, ignore_errors=True)
     return {"i": i, "origin": origin, "violations": r.violations, "drift": r.drift, "invocations": r.invocations,
